@@ -534,13 +534,14 @@ async def run_rebind_script(plan, r: Result):
                     r.bad("C20:coroutine-result-not-relayed", f"a method that became a coroutine function gave {got!r} through the proxy")
                     return 0
             elif step == "noncallable":
-                target.handler = 5
-                try:
-                    getattr(proxy, "handler")
-                    r.bad("C20:non-callable-not-refused", "attribute replaced by a non-callable value is still handed out")
-                    return 0
-                except TypeError:
-                    pass
+                for val in (5, None, "", 0, b"x", [], (), 3.5, False, {"a": 1}):
+                    target.handler = val
+                    try:
+                        getattr(proxy, "handler")
+                        r.bad("C20:non-callable-not-refused", f"attribute replaced by the non-callable value {val!r} is still handed out")
+                        return 0
+                    except TypeError:
+                        pass
         if first != ("q1", 1) or ("v1", 1, owner_ident) not in seen:
             r.bad("C20:harness:rebind-baseline", f"{first} {seen[:1]}")
         return 1
@@ -654,6 +655,62 @@ async def run_stop_script(plan, r: Result):
         await asyncio.sleep(0)
 
 
+async def run_dependent_script(plan, r: Result):
+    """Coroutine calls in flight at the same time run concurrently on the owner's loop, as they would without the proxy:
+    n callers wait for something that a later call provides.  Every caller must receive its result."""
+    from bellows.thread import EventLoopThread, ThreadsafeProxy
+
+    class Dep:
+        def __init__(self):
+            self.ev = None
+            self.idents = []
+
+        def _event(self):
+            if self.ev is None:
+                self.ev = asyncio.Event()
+            return self.ev
+
+        async def wait_ready(self, k):
+            self.idents.append(threading.get_ident())
+            await self._event().wait()
+            return ("ready", k)
+
+        async def announce(self, k):
+            self.idents.append(threading.get_ident())
+            await asyncio.sleep(0)
+            self._event().set()
+            return ("announced", k)
+
+    owner = EventLoopThread()
+    await owner.start()
+    owner_ident = await owner.run_coroutine_threadsafe(_ident())
+    target = Dep()
+    proxy = ThreadsafeProxy(target, owner.loop)
+    try:
+        n = plan["waiters"]
+        futs = [proxy.wait_ready(i) for i in range(n)] + [proxy.announce(99)]
+        try:
+            res = await asyncio.wait_for(asyncio.gather(*futs), 6)
+        except asyncio.TimeoutError:
+            r.bad("C20:caller-never-receives-result:calls-that-depend-on-each-other",
+                  f"{n} coroutine calls waiting for what a later call provides: not all callers got a result within 6 s; plan {plan}")
+            return 0
+        if res != [("ready", i) for i in range(n)] + [("announced", 99)]:
+            r.bad("C20:coroutine-result-not-relayed", f"dependent calls returned {res!r}")
+            return 0
+        if any(i != owner_ident for i in target.idents):
+            r.bad("C20:body-ran-on-foreign-thread", f"{target.idents} owner {owner_ident}")
+            return 0
+        return n + 1
+    finally:
+        owner.force_stop()
+        await asyncio.sleep(0)
+
+
+async def _ident():
+    return threading.get_ident()
+
+
 def check(plan) -> Result:
     r = Result(classes=["state:" + plan["state"]])
     warnings.simplefilter("ignore")
@@ -662,6 +719,8 @@ def check(plan) -> Result:
     async def main():
         if plan["state"] == "stop-inflight":
             return await asyncio.wait_for(run_stop_script(plan, r), 25)
+        if plan["state"] == "dependent":
+            return await asyncio.wait_for(run_dependent_script(plan, r), 25)
         if plan["state"] == "rebind":
             return await asyncio.wait_for(run_rebind_script(plan, r), 25)
         return await asyncio.wait_for(run_script(plan, r), 20)
@@ -722,6 +781,9 @@ def _worker(ctx, n):
         if order[-1] != "noncallable" and order.index("noncallable") < order.index("kind") or order.index("noncallable") < order.index("fn"):
             continue  # once the attribute is a non-callable the plain-method steps need it rebound first: keep it last-ish
         plan = {"state": "rebind", "order": list(order)}
+        ctx.check(plan, check(plan))
+    for waiters in (1, 2, 5):
+        plan = {"state": "dependent", "waiters": waiters}
         ctx.check(plan, check(plan))
     for early in (["slow_clean"], ["slow_plain", "slow_raise", "slow_return"]):
         for calls in ([["slow_clean", "main"]], [["slow_return", "second"], ["slow_plain", "main"]]):
